@@ -1,7 +1,7 @@
 """Property id -> check function."""
 import json
 
-from . import props_value, props_obs
+from . import props_value, props_obs, props_msg
 
 CHECKS = {
     "C01": props_value.check_C01,
@@ -11,7 +11,9 @@ CHECKS = {
     "C07": props_value.check_C07,
     "C10": props_obs.check_C10,
     "C11": props_obs.check_C11,
+    "C12": props_obs.check_C12,
     "C13": props_obs.check_C13,
+    "C16": props_msg.check_C16,
 }
 
 
